@@ -58,8 +58,15 @@ def none_only_at_exhaustion(ctx, rule, fv, who):
         stmts = fv.body.get("stmts", [])
         last = stmts[-1] if stmts else None
         last = last["e"] if last is not None and last.get("k") == "semi" else last
+        wl_ = None
+        if last is not None and last.get("k") == "loop" and last.get("from_while_let"):
+            b_ = last.get("body") or {}
+            wl_ = b_.get("expr") if b_.get("k") == "block" and not b_.get("stmts") else None
         if last is not None and last.get("k") == "while" and exhaustion_verdict(fv.term(last["cond"]), False) is True:
             n_sites += 1
+        elif isinstance(wl_, dict) and wl_.get("k") == "if" and exhaustion_verdict(fv.term(wl_["cond"]), False) is True \
+                and not [x for x in walk(wl_["then"]) if x.get("k") == "break" and x.get("target") == last.get("lid")]:
+            n_sites += 1          # `while let Some(&c) = seq.get(pos) { .. } None`: left only when pos reached the end
         else:
             bad = bad or tail
     ctx.check(rule, "%s:none_only_at_exhaustion" % who, bad is None and n_sites >= 1,
